@@ -133,7 +133,9 @@ pub fn split_into_deflate_streams(
                     if let Ok((r, payload)) = parse_idat(&src[real_start..], 0) {
                         if let Ok(res) = decompress_deflate_stream(&payload, true, loglevel) {
                             let length = r.total_chunk_length;
-                            if length > MIN_BLOCKSIZE {
+                            // the deflate stream has to end exactly where the adler32 starts,
+                            // otherwise the chunks cannot be recreated from the stream
+                            if length > MIN_BLOCKSIZE && res.compressed_size == payload.len() {
                                 locations_found.push(BlockChunk::Literal(real_start - prev_index));
 
                                 locations_found.push(BlockChunk::IDATDeflate(r, res));
@@ -321,8 +323,11 @@ fn parse_zip_stream(contents: &[u8]) -> Result<(usize, DecompressResult)> {
     if zip_local_file_header.compression_method == 8 {
         let deflate_start_position = binary_reader.stream_position()? as usize;
 
-        if let Ok(res) = decompress_deflate_stream(&contents[deflate_start_position..], true, 1) {
-            return Ok((deflate_start_position, res));
+        // the extra field length may point past the end of the data
+        if let Some(deflate_data) = contents.get(deflate_start_position..) {
+            if let Ok(res) = decompress_deflate_stream(deflate_data, true, 1) {
+                return Ok((deflate_start_position, res));
+            }
         }
     }
 
